@@ -762,9 +762,18 @@ def _real_pow(base, e):
         if base.c is not None and base.c > 0:
             # constant ** rational: float value lifted (documented approximation)
             return SymR(Fraction(float(base.c) ** float(ec)))
-    # general power: uninterpreted
-    f = ctx().func('pow', 2, impl=lambda a, b: math.pow(a, b))
-    return f(base, e)
+    # general power: uninterpreted, with the sign facts that hold for real powers
+    c = ctx()
+    f = c.func('pow', 2, impl=lambda a, b: math.pow(a, b))
+    out = f(base, e)
+    if ec is not None and ec > 0 and base.c is None:
+        bt = base.term()
+        c.add_axiom(z3.Implies(bt >= 0, out.term() >= 0))
+        c.add_axiom(z3.Implies(bt >= 1, out.term() >= 1))
+        c.add_axiom(z3.Implies(z3.And(bt >= 0, bt <= 1), out.term() <= 1))
+        if ec < 1:
+            c.add_axiom(z3.Implies(bt >= 1, out.term() <= bt))
+    return out
 
 
 # --------------------------------------------------------------------------
